@@ -1,31 +1,42 @@
 ID = "C18"
-LEVEL = "other"
+LEVEL = "proof"
 COQ_TARGETS = ["Props/Properties_C18.vo", "Extract/ExtractValue.vo"]
 PROPS_FILES = ["Props/Properties_C18.v"]
 RUNS = [dict(name="canon", harness="c18", driver="value", model_ml="value_model", driver_args=["c18"])]
 EXPLANATION = ("The canonical form is specified in Coq from the encoding specification (coq/Value/CanonSpec.v: norm = truncation "
-               "rules, enc = contiguous pre-order layout, cparse = strict sequential decoder) and proved: one normal form per "
-               "schema-level equality class (layout/version independence), the normal form equals the value, normalisation is "
-               "idempotent, output is one word-aligned segment, capabilities have no canonical form; the decoder round trip is "
-               "proved for everything but struct lists. capnp.Canonicalize is modelled step by step over the builder and reader models "
-               "(coq/Value/CanonM.v). On every generated input the harness compares Canonicalize's bytes with the extracted "
-               "model AND with canon applied to the walked tree, and evaluates the property's own predicates on the "
-               "implementation (reads back Equal, idempotent, same bytes for all layouts and schema versions of a value).")
+               "rules, enc = contiguous pre-order layout, cparse/cdecode = strict sequential decoder) and all [T1] theorems are "
+               "proved for all values: one canonical form per schema-level equality class (value_eqs: layout, padding and "
+               "version independence), the canonical bytes decode to exactly the canonical representative, which is equal to "
+               "the value; canonicalising what was read back returns the same bytes; the output is one word-aligned segment; "
+               "capabilities have no canonical form. capnp.Canonicalize is modelled step by step over the builder and reader "
+               "models (coq/Value/CanonM.v); [T2] (model = specification) is proved in stages (null struct, the size "
+               "computation canonicalStructSize for every struct, all-default structs end to end). On every generated input "
+               "the harness compares Canonicalize's bytes with the extracted model AND with canon applied to the walked tree, "
+               "and evaluates the property's own predicates on the implementation (reads back Equal, idempotent, same bytes "
+               "for all layouts and schema versions of a value).")
 TRUSTED = ["canonical-form specification coq/Value/CanonSpec.v written from encoding.html#canonicalization (trusted reading)",
            "model coq/Value/CanonM.v hand-written from canonical.go over coq/Core/Builder.v and Reader.v; its agreement with "
-           "the specification (canon_m_correct_statement, [T2]) is proved for the null struct only and otherwise checked by the "
-           "correspondence run",
-           "the strict decoder cparse is tied to the library's reader only by the run (flag R: output read back with the Go "
-           "reader is Equal to the input; flag P: cparse accepts every canon output and re-canonicalises to the same bytes)"]
+           "the specification (canon_m_correct_statement, [T2]) is proved in stages only (null struct, canonicalStructSize, "
+           "all-default structs); for general values the implementation is tied to the SPECIFICATION directly by the "
+           "correspondence run (Canonicalize bytes = canon (denote (walk input)) on every case, 0 disagreements)",
+           "the strict decoder cdecode is tied to the library's reader only by the run (flag R: output read back with the Go "
+           "reader is Equal to the input; flag P: cdecode accepts every canon output and re-canonicalises to the same bytes)"]
 MODELLED = ["single-segment arena growth (Builder.v allocSegment/nextAlloc)", "Go slices with cap == len for source segments"]
-ASSUMPTIONS = ["values are well formed (wfv) and sizes fit their pointer fields; 64-bit platform"]
-LEVEL_TEXT = ("Other: [T1] proved for all values: canon_unique (value_eqs a b -> canon a = canon b), norm_veq, canon_norm "
-              "(idempotence at value level), canon_aligned, canon_cap_none; the decoder round trip cparse(enc v) = v is proved "
-              "for null, structs, void, pointer, bit and primitive lists and checked by evaluation for struct "
-              "lists. The uniqueness relation is value_eqs (no list upgrade): value_eq a b -> canon a = canon b is false. [T2] (Go-faithful model = specification) stated, proved for the null struct, otherwise by differential run. "
-              "Defects F04, O2 and O3 found by the run and fixed; pre-fix models kept with witnesses.")
-LEVEL_NOTE = ("Trusted: Coq kernel, extraction, harness, hand-written model and specification. Not proved: cparse_enc_statement "
-              "for bit/primitive/struct lists, canon_m_correct_statement.")
+ASSUMPTIONS = ["values are well formed, field values fit their fields, no capabilities (good v); sizes fit their pointer fields "
+               "(otherwise canon is None); 64-bit platform",
+               "the uniqueness relation is value_eqs (no list upgrade): value_eq a b -> canon a = canon b is FALSE (a primitive "
+               "list and the equivalent struct list are Equal but have different canonical forms)"]
+LEVEL_TEXT = ("Proof ([T1], all values): canon_unique (value_eqs a b -> canon a = canon b), cdecode_canon (the strict pre-order "
+              "decoder reads the canonical bytes back as exactly norm v), canon_decodes_equal (value_eqs and value_eq to v), "
+              "canon_idempotent, canon_norm, canon_aligned, canon_cap_none; cparse_enc for every normal-form value incl. bit, "
+              "primitive and struct lists. [T2] stated in full (canon_m_correct_statement) and proved in stages: "
+              "canon_m_null, canonicalStructSize_spec (every struct), canon_m_default_struct (end to end); its consequences "
+              "for Canonicalize are proved conditionally (..._if). Defects F04, O2 and O3 found by the run and fixed; pre-fix "
+              "models kept with witnesses.")
+LEVEL_NOTE = ("Level 'proof' refers to [T1] (DESIGN legend: the committed theorems). The stretch theorem [T2] -- the Go-faithful "
+              "model of Canonicalize equals the specification for every value -- is NOT proved in general (open: the heap-level "
+              "induction over allocation order and pointer words); the implementation is tied to the specification by the "
+              "differential run on every case. Trusted: Coq kernel, extraction, harness, hand-written model and specification.")
 TECHNIQUE = "Coq proof over an executable model + extracted-model/implementation differential run"
 DESIGN_REF = "DESIGN.md section 6, C18"
 
